@@ -17,7 +17,10 @@ CONSTANTS Classes,      \* class names
           Orders,       \* {"sorted", "reversed", "shuffled", "dup"}
           MaxOps        \* bound on the length of generated behaviours
 
-Modes == {"ok", "unknown", "missing"}
+Modes == {"ok", "ok2", "unknown", "missing", "unpublished"}
+(* ok2: a second, non-default but valid parameter set; unpublished: a parameter that a *)
+(* parent class publishes but this class (e.g. a geometry wrapper) does not            *)
+IsOk(mode) == mode \in {"ok", "ok2"}
 
 (* Documented standard field names (ExactSolution docstring table) and    *)
 (* names that denote a quantity of that table without being the standard  *)
@@ -35,11 +38,11 @@ vars == <<objs, solved, hist>>
 
 Init == objs = <<>> /\ solved = {} /\ hist = <<>>
 
-ExpectConstruct(mode) == IF mode = "ok" THEN "ok" ELSE "ValueError"
+ExpectConstruct(mode) == IF IsOk(mode) THEN "ok" ELSE "ValueError"
 
 Construct(o, c, mode) ==
   /\ o \notin DOMAIN objs
-  /\ objs' = IF mode = "ok" THEN objs @@ (o :> c) ELSE objs
+  /\ objs' = IF IsOk(mode) THEN objs @@ (o :> c) ELSE objs
   /\ hist' = Append(hist, [op |-> "Construct", obj |-> o, cls |-> c, mode |-> mode])
   /\ UNCHANGED solved
 
@@ -80,5 +83,5 @@ DumpClauses(r) ==
 TypeOK == /\ DOMAIN objs \subseteq Objs /\ solved \subseteq DOMAIN objs
 OnlyBuiltObjectsAreCalled ==
   \A i \in 1..Len(hist) : hist[i].op = "Call" =>
-      \E j \in 1..(i - 1) : hist[j].op = "Construct" /\ hist[j].obj = hist[i].obj /\ hist[j].mode = "ok"
+      \E j \in 1..(i - 1) : hist[j].op = "Construct" /\ hist[j].obj = hist[i].obj /\ IsOk(hist[j].mode)
 =========================================================================
